@@ -31,6 +31,9 @@ pub fn run(ctx: &Ctx, rep: &mut Report) {
             for code in 0..(1u64 << width) {
                 let contexts = if ctx.thorough() { 512 } else { 64 };
                 for c in 0..contexts {
+                  // the all-'not available' context is repeated under every special sender number
+                  let senders: Vec<Option<u32>> = if c % 8 == 2 && (c < 16 || ctx.thorough()) { gen::SPECIAL_MMSI.iter().map(|m| Some(*m)).collect() } else { vec![None] };
+                  for sender in senders {
                     let mut bits = fresh(b, &mut r);
                     // some contexts put the optional numeric fields of the message at their
                     // 'not available' codes (all of them, or a random subset): an enumerated
@@ -42,9 +45,17 @@ pub fn run(ctx: &Ctx, rep: &mut Report) {
                             }
                         }
                     }
+                    if let Some(m) = sender {
+                        if !(f.start < 38 && f.start + f.width > 8) {
+                            bits.put(8, 30, m as u64);
+                        }
+                    }
                     bits.put(f.start as usize, width, code);
                     n += 1;
                     rep.class(format!("{}|{}|{}", b.name, f.key, code));
+                    if sender.is_some() {
+                        rep.class(format!("{}|{}|special-sender", b.name, f.key));
+                    }
                     let v = gen::run_message(rep, PID, Some(12), &bits, via_for(n), b.name);
                     rep.count("codes_checked");
                     if c == 0 {
@@ -66,6 +77,7 @@ pub fn run(ctx: &Ctx, rep: &mut Report) {
                             }
                         }
                     }
+                  }
                 }
             }
         }
